@@ -40,6 +40,8 @@ Tags(r) ==
         \cup (IF \E n \in leaves : Degree(r, n) # 1 THEN {"terminal-used-twice"} ELSE {})
         \cup (IF ~(ToSetH(r.newC) \subseteq LiveConnIds(r)) \/ ~(ToSetH(r.newJ) \subseteq LiveJuncIds(r)) THEN {"reported-new-object-not-live"} ELSE {})
         \cup (IF ToSetH(r.delC) \cap LiveConnIds(r) # {} THEN {"reported-deleted-connector-still-live"} ELSE {})
+        \* the lists describe THIS transaction: nothing reported new was there before it (prevJ / prevC: the ids alive after the previous one)
+        \cup (IF ToSetH(r.newJ) \cap ToSetH(r.prevJ) # {} \/ ToSetH(r.newC) \cap ToSetH(r.prevC) # {} THEN {"reported-new-object-existed-before-the-transaction"} ELSE {})
         \cup (IF \E i \in DOMAIN r.conns : \E e \in {r.conns[i].src, r.conns[i].dst} : e.t = 2 /\ e.j \in ToSetH(r.delJ) THEN {"connector-attached-to-deleted-junction"} ELSE {})
         \cup (IF \E i \in DOMAIN r.conns : Len(r.conns[i].disp) < 2 THEN {"route-with-fewer-than-two-points"} ELSE {})
         \cup (IF \E i \in DOMAIN r.conns : LET c == r.conns[i] IN Len(c.disp) >= 2 /\
@@ -57,19 +59,20 @@ Eval == /\ phase = "todo" /\ phase' = "done" /\ UNCHANGED k
 Spec == Init /\ [][Eval]_vars
 AllTrees == bad = {}
 \* ---- B1: hyperedge scenarios (terminal sets x junction position x improvement options x follow-up transaction) ----
-\* follow-up: 0 none, 1 a terminal's shape moved, 2 an empty transaction, 3 a terminal's shape and every junction moved in one transaction
+\* follow-up: 0 none, 1 a terminal's shape moved, 2 an empty transaction, 3 a terminal's shape and every junction moved in one transaction,
+\*            4 the adding/deleting improvement option switched off (the junction-moving one left on), then a terminal's shape moved
 \* terminals are shape pins (the statement's quantifier): classes 1 and 2 of three shapes
 TermCat == {<<1, 1, 1>>, <<1, 1, 2>>, <<1, 2, 1>>, <<1, 2, 2>>, <<1, 3, 1>>, <<1, 3, 2>>}
 Scenarios0 == {[geo |-> 0, terms |-> SetToSeq(T), jp |-> jp, opts |-> op, follow |-> f] :
-                 T \in {T \in SUBSET TermCat : Cardinality(T) \in {3, 4}}, jp \in {<<12, 11>>, <<11, 12>>, <<5, 12>>}, op \in {2, 4, 6, 3}, f \in 0..3}
+                 T \in {T \in SUBSET TermCat : Cardinality(T) \in {3, 4}}, jp \in {<<12, 11>>, <<11, 12>>, <<5, 12>>}, op \in {2, 4, 6, 3}, f \in 0..4}
 \* second geometry: a junction with a shape straight above and below it and two or three shapes further along one line, whose pins face
 \* that line -- several connectors leave the junction along a shared path while others leave in other directions (degree 4..5)
 TermCat1 == {<<1, s, 1>> : s \in 1..5}
 Scenarios1 == {[geo |-> 1, terms |-> SetToSeq(T), jp |-> jp, opts |-> op, follow |-> f] :
-                 T \in {T \in SUBSET TermCat1 : Cardinality(T) \in {4, 5}}, jp \in {<<10, 30>>, <<25, 30>>, <<10, 20>>}, op \in {2, 4, 6, 3}, f \in 0..3}
+                 T \in {T \in SUBSET TermCat1 : Cardinality(T) \in {4, 5}}, jp \in {<<10, 30>>, <<25, 30>>, <<10, 20>>}, op \in {2, 4, 6, 3}, f \in 0..4}
 \* registration by terminal list instead of by junction (no junction or connector exists beforehand: the rerouter creates them)
 Scen2(g, Cat) == {[geo |-> g, reg |-> 1, terms |-> SetToSeq(T), jp |-> <<0, 0>>, opts |-> op, follow |-> f] :
-                    T \in {T \in SUBSET Cat : Cardinality(T) \in {3, 4}}, op \in {2, 6}, f \in 0..3}
+                    T \in {T \in SUBSET Cat : Cardinality(T) \in {3, 4}}, op \in {2, 6}, f \in 0..4}
 Scenarios2 == Scen2(0, TermCat) \cup Scen2(1, TermCat1)
 \* pass = 1 (first geometry, registration by junction): the last terminal hangs on a second junction with just two connectors, which
 \* sits between the registered junction and that terminal (a junction made by splitting a connector)
